@@ -1,6 +1,6 @@
 (* Suites.v -- dispatcher over the correspondence suites.  Everything here is
    executable; it is extracted to OCaml and also evaluated inside Coq. *)
-From CoapV Require Import Base Suite01 Suite05 Suite06 Suite07 Suite13 Suite19.
+From CoapV Require Import Base Suite01 Suite05 Suite06 Suite07 Suite13 Suite14 Suite19.
 
 Definition run (suite : N) (s : list N) : list N :=
   match suite with
@@ -11,6 +11,8 @@ Definition run (suite : N) (s : list N) : list N :=
   | 60 => run60 s
   | 70 => run07 s
   | 130 => run130 s
+  | 140 => run140 s
+  | 150 => run150 s
   | 190 => run190 s
   | _ => [998]
   end.
@@ -26,6 +28,8 @@ Definition verdict (suite : N) (s out : list N) : bool :=
   | 60 => verdict60 s out
   | 70 => verdict07 s out
   | 130 => verdict130 s out
+  | 140 => verdict140 s out
+  | 150 => verdict150 s out
   | 190 => verdict190 s out
   | _ => false
   end.
@@ -40,12 +44,18 @@ Definition classify (suite : N) (s out : list N) : N :=
   | 60 => classify60 s
   | 70 => classify07 s
   | 130 => classify130 s
+  | 140 => classify140 s
+  | 150 => classify150 s
   | 190 => classify190 s
   | _ => 0
   end.
 
 (* id of the known-finding class the input belongs to; 0 = none *)
-Definition known (suite : N) (s : list N) : N := 0.
+Definition known (suite : N) (s : list N) : N :=
+  match suite with
+  | 140 => known140 s
+  | _ => 0
+  end.
 
 (* in-Coq evaluation of a batch: indices of the cases whose model output differs *)
 Definition check_batch (suite : N) (cases : list (list N * list N)) : list N :=
